@@ -98,7 +98,7 @@ Theorem quiet_step_version s o p :
   version_at (fst r) p = version_at s p + (if accepted_cset_on p o (o_res (snd r)) then 1 else 0).
 Proof.
   intros HI Hq. destruct (quiet_c01 o Hq) as [Hc Hi]. intros r Hnc.
-  destruct (step_refines s o HI Hc Hi Hnc) as (HI' & Hw & _). fold r in HI', Hw. split; [exact HI'|].
+  destruct (step_refines0 s o HI Hc Hi Hnc) as (HI' & Hw & _). fold r in HI', Hw. split; [exact HI'|].
   unfold version_at.
   destruct o; try contradiction; cbn [accepted_cset_on]; try (cbn [write_effect] in Hw; rewrite Hw; lia).
   - (* set *)
@@ -169,7 +169,7 @@ Proof.
   destruct (cset_rule s c1 k v1 n p Hw1 Hmax) as (_ & Hset & _).
   specialize (Hset Hacc). fold s1 in Hset.
   assert (HI1 : Inv s1).
-  { destruct (step_refines s (OCSet c1 k v1 n false) HI I I) as (H & _); [rewrite Hacc; discriminate|exact H]. }
+  { destruct (step_refines0 s (OCSet c1 k v1 n false) HI I I) as (H & _); [rewrite Hacc; discriminate|exact H]. }
   pose proof (versions_monotone p ops s1 HI1 Hq Hnc) as Hmono.
   assert (Hv1 : version_at s1 p = n + 1) by (unfold version_at; now rewrite Hset).
   destruct (cset_rule (final s1 ops) c2 k v2 n p Hw2 Hmax) as (Hiff & _ & Herr).
